@@ -17,7 +17,7 @@ SHARDS = {"quick": 12, "thorough": 16}
 WATCHDOG = {"quick": 1500, "thorough": 3300}
 REQUIRED_CLASSES = {t: ["analyzer:Elementary", "analyzer:Probit", "analyzer:MaxLikeInf", "analyzer:MaxLikeFull", "relation:load_scaling",
                         "relation:cycle_scaling", "relation:row_permutation", "exact_basquin_data", "data:runouts_on_several_levels",
-                        "data:fracture_below_highest_runout", "data:pure_fracture_level_below_highest_runout"]
+                        "data:fracture_below_highest_runout", "data:pure_fracture_level_below_highest_runout", "relation:scaling_by_orders_of_magnitude"]
                     for t in ("quick", "thorough")}
 REQUIRED_MONITORS = ["load_scaling:SD*c,rest_unchanged", "cycle_scaling:ND*c,rest_unchanged", "row_permutation:identical",
                      "exact_data:k_1_exact", "exact_data:TN==TS==1", "zones_partition_at_transition", "loglik(MaxLike)>=loglik(Elementary)", "likelihood_equivariant"]
@@ -155,6 +155,11 @@ def run_case(case, ctx):
     ctx.check("zones_partition_at_transition", ok, observed={"finite": len(fz), "infinite": len(iz), "transition": tr, "rows": len(df)})
     c_load = float(2.0 ** int(rng.integers(-3, 4)) * (1 if rng.random() < 0.5 else 3))
     c_cyc = float(2.0 ** int(rng.integers(-4, 5)))
+    if rng.random() < 0.3:
+        # a change of unit (MPa -> strain-like magnitudes or Pa): powers of two, so that scaling itself is exact
+        c_load = float(2.0 ** int(rng.choice([-17, -10, 10, 20])))
+        c_cyc = float(2.0 ** int(rng.choice([-10, 10])))
+        ctx.tag("relation:scaling_by_orders_of_magnitude")
     if c_load == 1.0:
         c_load = 4.0
     if c_cyc == 1.0:
